@@ -356,3 +356,23 @@ package backend
 //@   props C17
 //@   requires events_dir_of(prefix)
 //@   ensures [event-records-only] result == has_prefix(key, events_dir)
+
+// ---- C19: the watcher hub's subscriber set is guarded by its lock ----
+//@ monitor WatcherHub subs
+
+//@ func (*WatcherHub).AddWatcher(ctx) (ch, err)
+//@   props C19 C05
+//@   nosafety
+//@   requires w != nil && w.metricCli != nil
+//@   modifies inferred:(*WatcherHub).AddWatcher
+//@ func (*WatcherHub).DeleteWatcher(sub, lock)
+//@   props C19 C05
+//@   nosafety
+//@   requires w != nil && w.metricCli != nil
+//@   requires [caller-holds-the-lock-or-asks-for-it] lock || holds_w(w)
+//@   modifies inferred:(*WatcherHub).DeleteWatcher
+//@ func (*WatcherHub).Stream(input)
+//@   props C19
+//@   nosafety
+//@   requires w != nil && w.metricCli != nil
+//@   modifies inferred:(*WatcherHub).Stream
